@@ -332,7 +332,23 @@ def undocumented_form(mn: str, ops: List[Tuple[Any, ...]], opcode: int) -> Optio
 CODE_WINDOW = 24      # bytes at PC treated as code: instruction (<= 7) + following instruction (<= 7) + NOP padding
 
 
+TAG_FOLLOW = " [depends on the following instruction]"
+TAG_TEMPS = " [depends on the lifter's TEMP registers at entry]"
+TAG_TOPBIT = " [I >= 8000h]"
+
+
+def has_temp_junk(case: Dict[str, Any]) -> bool:
+    return any(k.startswith("TEMP") and v for k, v in case["regs"].items())
+
+
+def without_temps(case: Dict[str, Any]) -> Dict[str, Any]:
+    c2 = dict(case)
+    c2["regs"] = {k: v for k, v in case["regs"].items() if not k.startswith("TEMP")}
+    return c2
+
+
 def judge(case: Dict[str, Any], want_obs: bool = False, _nofollow: bool = False) -> Judgement:
+    """_nofollow: inner call -- return the plain verdicts without the input-dependence tags."""
     j = Judgement()
     # The instruction under test may be followed by another instruction (generated dimension: the decoder looks one
     # instruction ahead).  Its length is taken from the decode in context; the *text* that drives the reference is
@@ -406,18 +422,38 @@ def judge(case: Dict[str, Any], want_obs: bool = False, _nofollow: bool = False)
         return j
     _judge_outcome(j, case, exps, prim, obs, mn, ops, regs, peek, length)
     j.loc += address_space_verdicts(obs)
-    if (j.loc or j.val) and not _nofollow and any(ctx_code[length:]):
-        # does the verdict depend on the instruction that follows?  (semantic input tag, as '[b+Cin wraps]')
-        c2 = dict(case)
-        span = {(pc + i) & RS.M20 for i in range(length, CODE_WINDOW)}
-        c2["mem"] = [m_ for m_ in case["mem"] if pycore.canon(m_[0]) not in span] + [[a, 0] for a in sorted(span)]
-        j2 = judge(c2, _nofollow=True)
-        if j2.status == "ok":
-            tag = " [depends on the following instruction]"
+    if mn in RS.COUNTED and (int(regs["I"]) & 0xFFFF) >= 0x8000:
+        # semantic input class: the 16-bit counter has its top bit set (iteration count above 32767)
+        j.loc = [(sub, sym + TAG_TOPBIT, det) for sub, sym, det in j.loc]
+        j.val = [(sub, sym + TAG_TOPBIT, det) for sub, sym, det in j.val]
+    if (j.loc or j.val) and not _nofollow:
+        # Which generated input dimensions does the verdict depend on?  (semantic input tags, as '[b+Cin wraps]'):
+        # the instruction that follows in memory, the junk in the lifter's TEMP registers at instruction entry.
+        loc_tags = ["" for _ in j.loc]
+        val_tags = ["" for _ in j.val]
+
+        def compare(c2: Dict[str, Any], tag: str) -> None:
+            j2 = judge(c2, _nofollow=True)
+            if j2.status != "ok":
+                return
             keep_l = {(sub, sym) for sub, sym, _ in j2.loc}
             keep_v = {(sub, sym) for sub, sym, _ in j2.val}
-            j.loc = [(sub, sym if (sub, sym) in keep_l else sym + tag, det) for sub, sym, det in j.loc]
-            j.val = [(sub, sym if (sub, sym) in keep_v else sym + tag, det) for sub, sym, det in j.val]
+            for i, (sub, sym, _) in enumerate(j.loc):
+                if (sub, sym) not in keep_l:
+                    loc_tags[i] += tag
+            for i, (sub, sym, _) in enumerate(j.val):
+                if (sub, sym) not in keep_v:
+                    val_tags[i] += tag
+
+        if any(ctx_code[length:]):
+            c2 = dict(case)
+            span = {(pc + i) & RS.M20 for i in range(length, CODE_WINDOW)}
+            c2["mem"] = [m_ for m_ in case["mem"] if pycore.canon(m_[0]) not in span] + [[a, 0] for a in sorted(span)]
+            compare(c2, TAG_FOLLOW)
+        if has_temp_junk(case):
+            compare(without_temps(case), TAG_TEMPS)
+        j.loc = [(sub, sym + t, det) for (sub, sym, det), t in zip(j.loc, loc_tags)]
+        j.val = [(sub, sym + t, det) for (sub, sym, det), t in zip(j.val, val_tags)]
     return j
 
 
@@ -537,10 +573,15 @@ def flip_checks(case: Dict[str, Any], j: Judgement, st: S.Stream) -> List[Tuple[
     return []
 
 
+BIGCOUNT_ATTEMPTS = 8
+WAIT_OPCODE = 0xEF
+
+
 def explore_shard(task: Tuple[Any, ...]) -> Report:
     """task = (prop, shard, nshards, seed, count, imax, salt[, focus]).  focus None: cycle over all (prefix, opcode)
     pairs; focus (count = repetitions per (prefix, head)) 'blockwrap' / 'ptr-edge': boundary grids over the MVL/MVLD encodings resp. the encodings with a
-    [r3++] / [--r3] operand (see c03_gen.focus_heads)."""
+    [r3++] / [--r3] operand (see c03_gen.focus_heads); focus 'bigcount' (count = cases of this shard): the MVL/MVLD/WAIT
+    (prefix, head) pairs in a seed-rotated order with large iteration counts (c03_gen.big_count)."""
     prop, shard, nshards, seed, count, imax, salt = task[:7]
     focus = task[7] if len(task) > 7 else None
     seed = mix32(seed, salt, 0x5EED)     # decorrelate neighbouring VERIF_SEED values
@@ -548,51 +589,88 @@ def explore_shard(task: Tuple[Any, ...]) -> Report:
         seed = mix32(seed, 0xF0C5, len(focus))
     rep = Report()
     ops_list = GN.opcodes()
-    heads = GN.focus_heads(focus) if focus else []
+    heads = GN.focus_heads("blockwrap" if focus == "bigcount" else focus) if focus else []
+    if focus == "bigcount":
+        heads = heads + [(WAIT_OPCODE, 0x00)]      # the third user of the counted loop; a prefixed WAIT runs its IL loop
     npairs = len(ops_list) * len(G.PRES)
-    if focus:
+    if focus and focus != "bigcount":
         total = len(heads) * len(G.PRES) * count          # for a focus grid `count` = repetitions per (prefix, head)
         count = (total - shard + nshards - 1) // nshards if total > shard else 0
     for k in range(count):
         idx = shard + k * nshards
         st = S.Stream(seed, salt, idx)
-        if focus:
+        b2: Optional[int] = None
+        if focus == "bigcount":
+            # walk the (prefix, head) pairs with a stride coprime to their number, from a seeded start
+            nfp = len(heads) * len(G.PRES)
+            stride = 37
+            while _gcd(stride, nfp) != 1:
+                stride += 2
+            pair = (mix32(seed, 0xB16) + idx * stride) % nfp
+            pre = G.PRES[pair % len(G.PRES)]
+            op, b2 = heads[pair // len(G.PRES)]
+        elif focus:
             pre = G.PRES[idx % len(G.PRES)]
             op, b2 = heads[(idx // len(G.PRES)) % len(heads)]
-            code = GN.draw_encoding(st, pre, op, b2=b2, hi_bias=(focus == "blockwrap"))
         else:
             pair = idx % npairs
             pre = G.PRES[pair // len(ops_list)]
             op = ops_list[pair % len(ops_list)]
-            code = GN.draw_encoding(st, pre, op)
-        if code is None:
+        got = None
+        retries: List[str] = []
+        attempts = BIGCOUNT_ATTEMPTS if focus == "bigcount" else 1
+        for attempt in range(attempts):
+            if attempt:
+                # the reference is silent for this placement (block leaves the 1 MiB space / overlaps the code bytes /
+                # rewrites BP,PX,PY while addressing through them): re-draw the case, prefix included
+                st = S.Stream(seed, salt, idx, attempt)
+                pre = st.choice(G.PRES)
+            got = _draw_and_judge(st, pre, op, b2, focus, imax, ops_list)
+            if got is None or got[3].status != "skip" or attempt == attempts - 1:
+                break
+            retries.append("bigcount:redrawn:" + got[3].reason)
+        if got is None:
             rep.filtered += 1
             continue
-        # what follows the instruction in memory is a generated dimension (the decoder looks one instruction ahead):
-        # NOPs 1/2, another encoding of the same (prefix, opcode) with fresh operand bytes 1/4, any valid encoding 1/4
-        fk = st.below(4)
-        follow: Optional[bytes] = b""
-        flabel = "follow:nop"
-        if fk == 2:
-            follow = GN.draw_encoding(st, pre, op)
-            flabel = "follow:same-opcode"
-        elif fk == 3:
-            follow = GN.draw_encoding(st, st.choice(G.PRES), st.choice(ops_list))
-            flabel = "follow:other-instruction"
-        if not follow:
-            follow, flabel = b"", "follow:nop"
-        big = imax > 64 and st.chance(1, 6)
-        mc = GN.make_case(st, code, imax if big else min(imax, 24), follow=follow, focus=focus)
-        if mc is None:
-            rep.filtered += 1
-            continue
-        case, labels, mn, ops = mc
-        labels.append(flabel)
-        if focus:
-            labels.append("focus:" + focus)
-        j = judge(case)
+        case, labels, _mn, j = got
+        labels += retries
         record(prop, rep, case, j, labels, op, pre, st)
     return rep
+
+
+def _gcd(a: int, b: int) -> int:
+    while b:
+        a, b = b, a % b
+    return a
+
+
+def _draw_and_judge(st: S.Stream, pre: Optional[int], op: int, b2: Optional[int], focus: Optional[str], imax: int,
+                    ops_list: List[int]) -> Optional[Tuple[Dict[str, Any], List[str], str, Judgement]]:
+    code = GN.draw_encoding(st, pre, op, b2=b2, hi_bias=(focus == "blockwrap")) if focus else GN.draw_encoding(st, pre, op)
+    if code is None:
+        return None
+    # what follows the instruction in memory is a generated dimension (the decoder looks one instruction ahead):
+    # NOPs 1/2, another encoding of the same (prefix, opcode) with fresh operand bytes 1/4, any valid encoding 1/4
+    fk = st.below(4)
+    follow: Optional[bytes] = b""
+    flabel = "follow:nop"
+    if fk == 2:
+        follow = GN.draw_encoding(st, pre, op)
+        flabel = "follow:same-opcode"
+    elif fk == 3:
+        follow = GN.draw_encoding(st, st.choice(G.PRES), st.choice(ops_list))
+        flabel = "follow:other-instruction"
+    if not follow:
+        follow, flabel = b"", "follow:nop"
+    big = imax > 64 and st.chance(1, 6)
+    mc = GN.make_case(st, code, imax if big else min(imax, 24), follow=follow, focus=focus)
+    if mc is None:
+        return None
+    case, labels, mn, ops = mc
+    labels.append(flabel)
+    if focus:
+        labels.append("focus:" + focus)
+    return case, labels, mn, judge(case)
 
 
 def record(prop: str, rep: Report, case: Dict[str, Any], j: Judgement, labels: List[str], op: int, pre: Optional[int],
@@ -657,6 +735,20 @@ def shrink_case(prop: str, v: Violation) -> Violation:
     if best is None:
         return v
     pc = case["regs"]["PC"]
+    if has_temp_junk(case):
+        # lifter scratch registers: all clear, else one at a time
+        b = same(without_temps(case))
+        if b is not None:
+            case, best = without_temps(case), b
+        else:
+            for t in sorted(k for k in case["regs"] if k.startswith("TEMP")):
+                if _t.time() - t0 > 50:
+                    return best
+                c2 = dict(case)
+                c2["regs"] = {k: v for k, v in case["regs"].items() if k != t}
+                b = same(c2)
+                if b is not None:
+                    case, best = c2, b
     for r in ("BA", "X", "Y", "U", "S", "I", "F"):
         for cand in ((0, 1, 2) if r == "I" else (0, 0x10000) if r in RS.R3 else (0,)):
             if _t.time() - t0 > 50:
